@@ -579,6 +579,26 @@ fn main() {
                     out.push_str(&format!("{i} TQ {}\n", if nan { "nan".to_string() } else { (a == b && b == a).to_string() }));
                 }
             }
+            #[cfg(feature = "t")]
+            {
+                // conversions of the built value into types it does not fit: the outcome and the
+                // error's message() are results, not presentation - the same in every configuration
+                use std::collections::BTreeMap;
+                let v = t::build(&Spec::Table(root.clone()));
+                let mut s = String::new();
+                fn put<T>(s: &mut String, r: Result<T, toml::de::Error>) {
+                    match r {
+                        Ok(_) => s.push_str("ok;"),
+                        Err(e) => s.push_str(&format!("err {:?};", e.message())),
+                    }
+                }
+                put(&mut s, v.clone().try_into::<BTreeMap<String, i64>>());
+                put(&mut s, v.clone().try_into::<BTreeMap<String, BTreeMap<String, i64>>>());
+                put(&mut s, v.clone().try_into::<BTreeMap<String, BTreeMap<String, BTreeMap<String, String>>>>());
+                put(&mut s, v.clone().try_into::<BTreeMap<String, Vec<BTreeMap<String, bool>>>>());
+                put(&mut s, v.clone().try_into::<BTreeMap<String, toml::Value>>());
+                out.push_str(&format!("{i} TE {}\n", hex(&s)));
+            }
             #[cfg(feature = "t_display")]
             {
                 let v = t::build(&Spec::Table(root.clone()));
